@@ -354,6 +354,9 @@ class World:
         elif op == "tnp":
             self.views.append([ret, b, self.cur[b], off, n, origin])
             out["vnew"] = ret
+            if not hasattr(self, "view_cmds"):
+                self.view_cmds = []
+            self.view_cmds.append((dict(c), var))
         elif op == "grow":
             self.keep.append(old)
             self.nst += 1
@@ -431,6 +434,16 @@ def compare(w, post, newcopy, newview):
                 return "view:wrong-bytes", f"returned view shows {list(real)}, buffer window [{vm['off']},{vm['off'] + vm['n']}) is {list(want)}"
             return ("aliases:view-differs-from-buffer", f"held view #{i + 1} (from {w.views[i][5]}) of {vm['b']}[{vm['off']},{vm['off'] + vm['n']}) shows {list(real)}, buffer holds {list(want)}",
                     w.views[i][5])
+        if vm["n"] > 0 and obj is newview:
+            # aliasing probed directly: a byte of the CURRENT storage under the view is flipped and restored; a view that only
+            # happens to show equal bytes (because it looks at storage the buffer has abandoned) does not follow
+            st = w.bufs[vm["b"]].buffer
+            raw_flip(st, vm["off"])
+            follows = raw(obj) != real
+            raw_flip(st, vm["off"])
+            if not follows:
+                return ("aliases:returned-view-does-not-alias-current-storage", f"view returned by {w.views[i][5]} of {vm['b']}[{vm['off']},{vm['off'] + vm['n']}) does not change when the buffer byte under it changes",
+                        w.views[i][5])
     return "", ""
 
 
@@ -532,6 +545,12 @@ def replay_file(args):
             for cfg in cfgs:
                 for lv in choose(rng, lastc, True, nlast, tier):
                     choice = [choose(rng, s["cmd"], False, 1, tier)[0] for s in beh[:-1]] + [lv]
+                    # the SAME view request (buffer, window, dtype, shape, entry point) issued again later in the behaviour
+                    for i2 in range(len(beh)):
+                        for i1 in range(i2):
+                            c1, c2 = beh[i1]["cmd"], beh[i2]["cmd"]
+                            if c1["op"] == c2["op"] == "tnp" and (c1["b"], c1["off"], c1["w"], c1["cnt"]) == (c2["b"], c2["off"], c2["w"], c2["cnt"]) and rng.random() < 0.6:
+                                choice[i1] = choice[i2]
                     r = run_behaviour(beh, caps, cfg, choice)
                     st["executions"] += 1
                     if r[0] == "ok":
@@ -779,6 +798,11 @@ def _random_cmd(rng, w, small):
         wd = rng.choice([1, 2, 4, 8])
         c["off"], c["n"] = _window(rng, cap, True, wd)
         c["w"], c["cnt"] = wd, c["n"] // wd
+        again = [x for x in getattr(w, "view_cmds", []) if x[0]["off"] + x[0]["n"] <= w.bufs[x[0]["b"]].capacity]
+        if again and rng.random() < 0.4:        # the very same request as an earlier one (possibly of an earlier storage generation)
+            c0, var0 = rng.choice(again)
+            c.update(b=c0["b"], off=c0["off"], n=c0["n"], w=c0["w"], cnt=c0["cnt"])
+            return c, var0, []
     elif op == "ufx":
         src = rng.choice("AB")
         scap = w.bufs[src].capacity
